@@ -182,11 +182,11 @@ type RunSpec struct {
 }
 
 type Case struct {
-	Targets []TargetSpec      `json:"targets"`
-	Files   map[string]string `json:"files"`
-	Runs    []RunSpec         `json:"runs"`
-	Cyclic  bool              `json:"cyclic,omitempty"`
-	NearMiss bool             `json:"nearmiss,omitempty"`
+	Targets  []TargetSpec      `json:"targets"`
+	Files    map[string]string `json:"files"`
+	Runs     []RunSpec         `json:"runs"`
+	Cyclic   bool              `json:"cyclic,omitempty"`
+	NearMiss bool              `json:"nearmiss,omitempty"`
 }
 
 // nearMiss: the label of a target that does not exist, one edit away from one that does (a typo, another case, an
@@ -258,12 +258,16 @@ func (r *recorder) add(e entry) {
 }
 func (r *recorder) reset() { r.m.Lock(); r.log = nil; r.m.Unlock() }
 
-func (r *recorder) Print(l *label.Label, line string) { r.add(entry{kind: 'P', label: l.String(), data: line}) }
-func (r *recorder) TargetUpToDate(l *label.Label)     { r.add(entry{kind: 'U', label: l.String()}) }
+func (r *recorder) Print(l *label.Label, line string) {
+	r.add(entry{kind: 'P', label: l.String(), data: line})
+}
+func (r *recorder) TargetUpToDate(l *label.Label) { r.add(entry{kind: 'U', label: l.String()}) }
 func (r *recorder) TargetEvaluating(l *label.Label, reason string, d diff.ValueDiff) {
 	r.add(entry{kind: 'E', label: l.String(), data: reason})
 }
-func (r *recorder) TargetFailed(l *label.Label, err error) { r.add(entry{kind: 'F', label: l.String(), err: err}) }
+func (r *recorder) TargetFailed(l *label.Label, err error) {
+	r.add(entry{kind: 'F', label: l.String(), err: err})
+}
 func (r *recorder) TargetSucceeded(l *label.Label, changed bool) {
 	r.add(entry{kind: 'S', label: l.String()})
 }
@@ -818,7 +822,7 @@ func judgeRun(c *Case, specs map[string]*TargetSpec, run int, res *runResult, vi
 			late := log[dAt+1]
 			emitV(map[string]any{"kind": "late-event", "key": "run-callback-late-event",
 				"detail": fmt.Sprintf("run %d (%+v): %d events delivered after run-done, first: %q of %s", run, rs, len(log)-1-dAt, string(late.kind), late.label),
-				"input": map[string]any{"stream": "ev", "case": c}})
+				"input":  map[string]any{"stream": "ev", "case": c}})
 		}
 		d := log[dAt]
 		if rs.Callback {
@@ -1116,6 +1120,12 @@ func optStream(r *rng, tier string) {
 				t.Fail = r.chance(8)
 				t.Always = r.chance(8)
 				c.Targets = append(c.Targets, t)
+			}
+			if r.chance(25) { // a dependency that is a near miss of an existing target's name
+				t := &c.Targets[r.below(nt)]
+				t.Deps = append([]string{nearMiss(r, c)}, t.Deps...)
+				c.NearMiss = true
+				count("ev.opts.nearmiss", 1)
 			}
 			root := c.Targets[nt-1].label()
 			for i, o := range seq {
